@@ -428,3 +428,163 @@ func TestVerifC12DilithiumPoly(t *testing.T) {
 		vlib.NonTrivialH(sub, "", h)
 	})
 }
+
+// c12Pattern draws a structured polynomial with coefficients in [0, max]: constant, blocks of
+// two values (halves, quarters, … alternating), single spikes, ramps, or random.
+func c12Pattern(t *rapid.T, max uint32, label string) (p Poly, kind string) {
+	vals := []uint32{0, 1, Q - 1, Q, Q + 1, max - 1, max, max, max}
+	pick := func(l string) uint32 {
+		v := vals[rapid.IntRange(0, len(vals)-1).Draw(t, label+l)]
+		if v > max {
+			v = max
+		}
+		return v
+	}
+	lo, hi := pick(".lo"), pick(".hi")
+	kind = rapid.SampledFrom([]string{"constant", "blocks", "blocks", "blocks", "spike", "ramp", "random", "random-two-valued"}).Draw(t, label+".kind")
+	switch kind {
+	case "constant":
+		for i := range p {
+			p[i] = hi
+		}
+	case "blocks":
+		sh := uint(rapid.IntRange(0, 7).Draw(t, label+".blk")) // block length 2^sh: alternating … halves
+		for i := range p {
+			if (i>>sh)&1 == 1 {
+				p[i] = hi
+			} else {
+				p[i] = lo
+			}
+		}
+	case "spike":
+		for i := range p {
+			p[i] = lo
+		}
+		for n := rapid.IntRange(1, 3).Draw(t, label+".ns"); n > 0; n-- {
+			p[rapid.IntRange(0, N-1).Draw(t, label+".pos")] = hi
+		}
+	case "ramp":
+		step := uint64(max) / N
+		down := rapid.Bool().Draw(t, label+".down")
+		for i := range p {
+			k := i
+			if down {
+				k = N - 1 - i
+			}
+			p[i] = uint32(uint64(k)*step + uint64(max)%N)
+		}
+	case "random-two-valued":
+		bits := make([]byte, N/8)
+		vlib.FillRandom(t, bits, label+".bits")
+		for i := range p {
+			if bits[i/8]>>(i%8)&1 == 1 {
+				p[i] = hi
+			} else {
+				p[i] = lo
+			}
+		}
+	default:
+		raw := make([]byte, 4*N)
+		vlib.FillRandom(t, raw, label+".raw")
+		for i := range p {
+			v := uint64(raw[4*i]) | uint64(raw[4*i+1])<<8 | uint64(raw[4*i+2])<<16 | uint64(raw[4*i+3])<<24
+			p[i] = uint32(v % (uint64(max) + 1))
+		}
+	}
+	return
+}
+
+// NTT and InvNTT on structured inputs over their whole documented domain
+// (coefficients < 2q, not only images of the other transform), dispatched and
+// generic code side by side, against the linear model Σ x[i]·T(e_i) mod q built
+// from the transforms of the unit vectors, and against each other through
+// NTT(InvNTT(x)) ≡ 2^32·x.
+func TestVerifC12DilithiumNTTStructured(t *testing.T) {
+	defer vlib.Done()
+	const q = uint64(Q)
+	const sub = "dilithium.poly"
+	backend := c12PolyBackend()
+	type tf struct {
+		name, be string
+		f        func(p *Poly)
+	}
+	tfs := []tf{
+		{"NTT", backend, func(p *Poly) { p.NTT() }}, {"NTT", "generic", func(p *Poly) { p.nttGeneric() }},
+		{"InvNTT", backend, func(p *Poly) { p.InvNTT() }}, {"InvNTT", "generic", func(p *Poly) { p.invNttGeneric() }},
+	}
+	// basis images T(e_i) mod q per transform and back-end (unit vectors are inside every documented domain)
+	basis := make([][N][N]uint64, len(tfs))
+	for k, x := range tfs {
+		for i := 0; i < N; i++ {
+			var e Poly
+			e[i] = 1
+			x.f(&e)
+			for j := range e {
+				basis[k][i][j] = uint64(e[j]) % q
+			}
+		}
+	}
+	vlib.Check(t, vlib.N(400, 4000), func(t *rapid.T) {
+		x, kind := c12Pattern(t, 2*Q-1, "x")
+		vlib.Eval(sub)
+		vlib.Class(sub, "op=NTT/InvNTT-structured")
+		vlib.Class(sub, "pattern="+kind)
+		var outs [4]Poly
+		for k, tr := range tfs {
+			fail := func(class, detail string) {
+				vlib.Report(t, "C12/dilithium.poly/"+tr.name+"-structured/"+tr.be+"/"+class, fmt.Sprintf("pattern %s, x[0..3]=%v x[128..131]=%v x[252..255]=%v: %s", kind, x[:4], x[128:132], x[252:], detail))
+			}
+			y := x
+			tr.f(&y)
+			outs[k] = y
+			bound := uint64(18 * q)
+			if tr.name == "InvNTT" {
+				bound = 2 * q
+			}
+			var want [N]uint64
+			for i := 0; i < N; i++ {
+				xi := uint64(x[i]) % q
+				if xi == 0 {
+					continue
+				}
+				for j := 0; j < N; j++ {
+					want[j] = (want[j] + xi*basis[k][i][j]) % q
+				}
+			}
+			for j := range y {
+				if uint64(y[j])%q != want[j] {
+					fail("not-linear", fmt.Sprintf("coefficient %d = %d, linear model (Σ x[i]·T(e_i)) gives %d", j, y[j], want[j]))
+					return
+				}
+				if uint64(y[j]) >= bound {
+					fail("out-of-bound", fmt.Sprintf("coefficient %d = %d ≥ documented bound %d", j, y[j], bound))
+					return
+				}
+			}
+		}
+		// the two back-ends agree modulo q, and NTT(InvNTT(x)) ≡ 2^32·x
+		for k := 0; k < 4; k += 2 {
+			for j := 0; j < N; j++ {
+				if uint64(outs[k][j])%q != uint64(outs[k+1][j])%q {
+					vlib.Report(t, "C12/dilithium.poly/"+tfs[k].name+"-structured/backends-differ", fmt.Sprintf("pattern %s coefficient %d: %s %d, generic %d", kind, j, backend, outs[k][j], outs[k+1][j]))
+					return
+				}
+			}
+		}
+		for k := 2; k < 4; k++ {
+			z := outs[k]
+			z.nttGeneric()
+			for j := range z {
+				if uint64(z[j])%q != (uint64(x[j])%q)*((1<<32)%q)%q {
+					vlib.Report(t, "C12/dilithium.poly/InvNTT-structured/"+tfs[k].be+"/not-inverse", fmt.Sprintf("pattern %s: NTT(InvNTT(x))[%d] = %d, want ≡ 2^32·%d", kind, j, z[j], x[j]))
+					return
+				}
+			}
+		}
+		raw := make([]byte, 0, 4*N)
+		for i := range x {
+			raw = append(raw, byte(x[i]), byte(x[i]>>8), byte(x[i]>>16), byte(x[i]>>24))
+		}
+		vlib.NonTrivialH(sub, "", vlib.Hash64([]byte("ntt-structured"), raw))
+	})
+}
